@@ -25,7 +25,18 @@ import re
 import shutil
 
 import vlib
-from vlib import run_tlc, tlc_must_pass, qev, write_ndjson, read_ndjson, chash
+from vlib import tlc_must_pass, qev, write_ndjson, read_ndjson, chash
+from vlib import run_tlc as _run_tlc_once
+
+
+def run_tlc(*a, **kw):
+    """TLC's state-pool files live under the shared work/tlc directory; if somebody else's clean-up removes them
+    under a running TLC ('when reading pool file' / 'when writing the disk') the run is repeated once."""
+    r = _run_tlc_once(*a, **kw)
+    if r.error and re.search(r"StatePool|pool file|when writing the disk", r.error):
+        vlib.log(f"[tlc] state-pool file lost under a running TLC ({kw.get('tag')}); repeating the run once")
+        r = _run_tlc_once(*a, **kw)
+    return r
 
 LEVEL = "model_checking"
 KINDS = ["agg", "scan", "filter", "group"]
@@ -207,7 +218,7 @@ def shape(case, upto):
     t = []
     for s in case["steps"][:upto + 1]:
         if s["a"] == "write":
-            t.append("W%d[v%d,%s,%s]" % (s["p"], s["v"], ("len=", "len#")[s["lc"]], ("later", "same-second", "mtime-preserved")[s["tc"]]))
+            t.append("W%d[v%d,%s,%s]" % (s["p"], s["v"], ("len=", "len#")[s["lc"]], ("later", "same-second", "mtime-preserved", "earlier-second", "earlier-subsecond")[s["tc"]]))
         else:
             t.append({"query": "Q", "xquery": "XQ", "build": "B"}[s["a"]] + str(s["p"]))
     return MODE_NAME[case["mode"]] + ": " + " ".join(t)
@@ -286,7 +297,7 @@ def vacuity(stats, need_x=True):
         if stats["actions"][a] == 0:
             miss.append(f"action {a}")
     for lc in (0, 1):
-        for tc in (0, 1, 2):
+        for tc in (0, 1, 2, 3, 4):
             if stats["writes"][f"lc{lc}/tc{tc}"] == 0:
                 miss.append(f"rewrite class lc{lc}/tc{tc}")
     if stats["verdicts"]["ok"] == 0:
@@ -306,6 +317,7 @@ CFG_TEMPLATE = """CONSTANTS Paths = {paths}
           MaxActions = {n}
           KeyModel = {km}
           VStep = {vstep}
+          TimeChoices = {{0, 1, 2, 3, 4}}
           WithX = TRUE
           EmitOn = {emit}
           Sim = FALSE
@@ -362,7 +374,7 @@ def model_results(ctx, res, quick):
         if zero:
             raise vlib.ToolError(f"TLC coverage: actions never taken: {zero}")
         tlc_must_pass(res["deep"], "CacheCoherence ideal keys, deep")
-        ctx.tlc_stats(res["deep"], "CacheCoherence, ideal keys, one path, 8 steps")
+        ctx.tlc_stats(res["deep"], "CacheCoherence, ideal keys, one path, 7 steps")
     # as-built keys: both refutations must be found
     model = {}
     for inv in ("FooterFresh", "SidecarFresh"):
@@ -404,11 +416,14 @@ def run(ctx):
     stats = new_stats()
     ex = prepare(gen)
     # the 4-step family: all of it in thorough, a seeded quarter in quick
-    mids = [c for c in prepare(midc) if not quick or (int(c["key"], 16) + ctx.seed) % 4 == 0]
+    mids = [c for c in prepare(midc) if not quick or (int(c["key"], 16) + ctx.seed) % 8 == 0]
+    if not quick:
+        # thorough: all 4-step histories; of the 5-step family (124k) a seeded eighth
+        ex = [c for c in ex if (int(c["key"], 16) + ctx.seed) % 8 == 0]
     ex = ex + mids
     seen = {c["key"] for c in ex}
     sm = [c for c in prepare(simc) if c["key"] not in seen]
-    if len(ex) < (900 if quick else 20000) or len(sm) < 40:
+    if len(ex) < (900 if quick else 15000) or len(sm) < 40:
         raise vlib.ToolError(f"too few histories emitted ({len(ex)} exhaustive, {len(sm)} simulated)")
     ctx.set("cases_4_step_family", len(mids))
     # all four concretisation variants (rename / in place x fresh / long-lived context) for the histories with a finding shape
@@ -453,10 +468,10 @@ def run(ctx):
         ctx.sample({"history": shape(c, len(c["steps"]) - 1), "repl": c["repl"], "shared_ctx": c["shared_ctx"],
                     "predicted_stale_last_query": c["steps"][-1]["pred"]["stale"]})
     ctx.set("rule", "A case is one history of CacheCoherence.tla: a QE_IPC_CACHE mode (0 / 1 / unset) and a sequence of steps over 1-2 paths - "
-            "Write (other content, same or other byte length, mtime later / same second other nanosecond / preserved), Query (4 statements: morsel "
+            "Write (other content, same or other byte length, mtime later / same second later nanosecond / preserved / an earlier second / same second earlier nanosecond), Query (4 statements: morsel "
             "aggregate, streaming scan, eager filtered scan, dictionary-group scan), XQuery (same in a fresh process), Build (another process builds "
-            "the sidecar) - ending in a query. The exhaustive family is every history of exactly 3 steps (quick; plus a seeded quarter of the 4-step ones) / "
-            "4 and 5 steps (thorough) on one path; simulation adds 8-step histories over two paths. Each history runs on real files in one engine process per mode; content versions differ in rows, "
+            "the sidecar) - ending in a query. The exhaustive family is every history of exactly 3 steps (quick; plus a seeded eighth of the 4-step ones) / "
+            "4 steps (thorough; plus a seeded eighth of the 5-step ones) on one path; simulation adds 8-step histories over two paths. Each history runs on real files in one engine process per mode; content versions differ in rows, "
             "row-group layout and dictionary encoding and have byte-identical lengths per length class. Non-trivial = distinct history in which a path is "
             "replaced after a query/build touched it and is queried again.")
     ctx.assumptions += [
